@@ -38,7 +38,7 @@ class HarnessResult:
         }
 
 
-CHECK_RE = re.compile(r"^Check (\d+): (\S+)\s*$")
+CHECK_RE = re.compile(r"^Check (\d+): (.+?)\s*$")
 
 
 def parse_regular(text, res):
